@@ -1052,7 +1052,27 @@ def wrap(v, ty):
     return ((v - lo) % m) + lo
 
 
+def _float_cmp(op, a, b):
+    """IEEE comparison of the FloatVal model (strmodels): NaN compares false, -0 == +0."""
+    def val(f):
+        return f.v
+    x, y = val(a), val(b)
+    for f in (a, b):
+        if f.kind == 'py' and f.v != f.v:
+            return op == 'Ne'
+    if a.kind == 'py' and b.kind == 'py':
+        return {'Eq': x == y, 'Ne': x != y, 'Lt': x < y, 'Le': x <= y, 'Gt': x > y, 'Ge': x >= y}[op]
+    for f in (a, b):
+        if f.kind == 'py' and (f.v in (float('inf'), float('-inf')) or f.v != int(f.v)):
+            raise Unmodelled('mixed symbolic/concrete float comparison')
+    x = int(x) if a.kind == 'py' else x
+    y = int(y) if b.kind == 'py' else y
+    return cmp_scalar(op, x, y)
+
+
 def cmp_scalar(op, a, b):
+    if hasattr(a, 'negzero') and hasattr(b, 'negzero'):
+        return _float_cmp(op, a, b)
     if isinstance(a, Enum) and isinstance(b, Enum):
         a, b = a.v, b.v
     if isinstance(a, bool) and not isinstance(b, bool) and not is_sym(b):
